@@ -473,26 +473,29 @@ func shouldIgnoreTriple(t *triple.Triple, cls *semantic.GraphClause) (bool, erro
 		}
 	}
 	if cls.OID != "" {
-		if p, err := t.Object().Predicate(); err == nil {
-			// The triples need to be filtered.
-			if string(p.ID()) != cls.OID {
+		p, err := t.Object().Predicate()
+		if err != nil {
+			// The clause asks for a predicate in the object position.
+			return true, nil
+		}
+		// The triples need to be filtered.
+		if string(p.ID()) != cls.OID {
+			return true, nil
+		}
+		if cls.OTemporal && cls.OAnchorBinding == "" {
+			if p.Type() != predicate.Temporal {
 				return true, nil
 			}
-			if cls.OTemporal && cls.OAnchorBinding == "" {
-				if p.Type() != predicate.Temporal {
-					return true, nil
-				}
-				ta, err := p.TimeAnchor()
-				if err != nil {
-					return true, fmt.Errorf("failed to retrieve time anchor from time predicate in triple %s with error %v", t, err)
-				}
-				// Need to check the bounds of the triple.
-				if cls.OLowerBound != nil && cls.OLowerBound.After(*ta) {
-					return true, nil
-				}
-				if cls.OUpperBound != nil && cls.OUpperBound.Before(*ta) {
-					return true, nil
-				}
+			ta, err := p.TimeAnchor()
+			if err != nil {
+				return true, fmt.Errorf("failed to retrieve time anchor from time predicate in triple %s with error %v", t, err)
+			}
+			// Need to check the bounds of the triple.
+			if cls.OLowerBound != nil && cls.OLowerBound.After(*ta) {
+				return true, nil
+			}
+			if cls.OUpperBound != nil && cls.OUpperBound.Before(*ta) {
+				return true, nil
 			}
 		}
 	}
